@@ -363,6 +363,18 @@ func DiffCanon(got, want []string) string {
 	}
 	for _, w := range want {
 		if gm[w] == 0 {
+			// Show the corresponding line of the device, if any.
+			key := w
+			if i := strings.Index(w, "<"); i > 0 {
+				key = w[:i]
+			} else if i := strings.Index(w, " = "); i > 0 {
+				key = w[:i]
+			}
+			for _, g := range got {
+				if strings.HasPrefix(g, key) && g != w {
+					return "missing on device: " + w + " ## device has: " + g
+				}
+			}
 			return "missing on device: " + w
 		}
 		gm[w]--
